@@ -410,5 +410,10 @@ def oracle(ctx, kind, case, out):
                 continue
             # the same octets for limits lim .. nxt-1: the size bound must hold for the smallest
             check_result(am, origin, lim, prefer, pad, bytes(r), lambda what, **kw: fail(what, limit=lim, **kw))
+            # exactness: without padding and TSIG the reserve is exactly the OPT record, so a result first
+            # appears at the limit equal to its length; appearing later means something that fits was left out
+            if op == 6 and i > 0 and pad == 0 and am[4] is None and (lim - 1) in lims and len(r) != lim:
+                fail("a result of %d octets only appears at limit %d: something that fits was left out"
+                     % (len(r), lim), limit=lim, sig="exact")
         return F
     return F
